@@ -4,9 +4,9 @@ package main
 // overlay file zz_verif_rt.go of each package under test).
 
 import (
-	"math/big"
 	"fmt"
 	"go/types"
+	"math/big"
 	"sort"
 	"strings"
 	"time"
@@ -51,8 +51,8 @@ func registerHarnessIntrinsics() {
 			return &TupleV{}
 		},
 		"verifNative": func(e *Exec, a []Value, s *ssa.CallCommon) Value { return e.tb.False() },
-		"verifAnd": func(e *Exec, a []Value, s *ssa.CallCommon) Value { return e.tb.And(a[0].(*Term), a[1].(*Term)) },
-		"verifOr":  func(e *Exec, a []Value, s *ssa.CallCommon) Value { return e.tb.Or(a[0].(*Term), a[1].(*Term)) },
+		"verifAnd":    func(e *Exec, a []Value, s *ssa.CallCommon) Value { return e.tb.And(a[0].(*Term), a[1].(*Term)) },
+		"verifOr":     func(e *Exec, a []Value, s *ssa.CallCommon) Value { return e.tb.Or(a[0].(*Term), a[1].(*Term)) },
 		"verifImplies": func(e *Exec, a []Value, s *ssa.CallCommon) Value {
 			return e.tb.Implies(a[0].(*Term), a[1].(*Term))
 		},
